@@ -309,6 +309,36 @@ def big_index_pair():
     return p, q
 
 
+def same_directory_other_limit(ctx, rep):
+    """one plotfile opened twice, with different level limits: two readers of different level counts are refused like any other
+    pair of different level counts, before anything is written"""
+    from amr_kitchen import PlotfileCooker
+    from amr_kitchen.combine.combine import combine
+    for _ in range(30):
+        p = plotgen.random_spec(ctx.rng, ndims=3, nlev=2, nf=2, data="bits", B=2)
+        if len(p["levels"]) == 2:
+            break
+    p["fields"] = P_FIELDS[:2]
+    d1 = ctx.newdir("c06s_"); plotgen.materialize(p, d1)
+    for la, lb in ((0, None), (None, 0)):
+        work = ctx.newdir("c06sw_"); os.makedirs(work)
+        case = {"same_directory_other_limit": [la, lb], "p": p}
+        rep.case({"p": p, "limits": [la, lb]}, nontrivial=True); rep.count("mismatch:same-directory-other-limit")
+        raised = None
+        try:
+            with alarm(120), quiet(), pools.controlled():
+                combine(PlotfileCooker(d1, limit_level=la), PlotfileCooker(d1, limit_level=lb), pltout=os.path.join(work, "out"),
+                        vars1=P_FIELDS[:1], vars2=P_FIELDS[1:2])
+        except Exception as e:
+            raised = e
+        if raised is None:
+            rep.fail(f"one plotfile opened with the level limits {la} and {lb} (different level counts) was combined with itself without an error", case)
+        elif tree_listing(work):
+            rep.fail(f"readers of different level counts were refused only after writing {tree_listing(work)[:3]}", case)
+        else:
+            rep.agree()
+
+
 def run(ctx, rep, model=True):
     n = 40 if ctx.quick else 240
     lay_pairs = [("mono", "mono"), ("mono", "sameperm"), ("perm", "same"), ("files", "scatter"), ("scatter", "files"),
@@ -340,6 +370,16 @@ def run(ctx, rep, model=True):
             return
     p, q = big_index_pair()
     run_case(ctx, rep, p, q, None, None, model, ("mono", "mono"), expect_refusal="index-1e5")
+    same_directory_other_limit(ctx, rep)
+    # four fields against twelve (their FAB header lines differ in length), boxes spread differently over files
+    for _ in range(30):
+        p, q, kinds = pair_specs(ctx.rng, nlev=2, kinds=("files", "scatter"))
+        if any(len(b) >= 2 for b in p["levels"]):
+            break
+    p["fields"] = P_FIELDS[:4]; q["fields"] = [f"q{k:02d}" for k in range(12)]
+    rep.count("field-counts-of-different-digit-counts")
+    run_case(ctx, rep, p, q, None, None, model, kinds)
+    run_case(ctx, rep, q, p, None, None, model, kinds[::-1])
     # 64 boxes in one binary file of the first input, each in a file of its own in the second, with room for 24 more open files
     p = plotgen.random_spec(ctx.rng, ndims=3, nlev=1, nf=2, data="bits", B=2, nblk=[4, 4, 4], single0=False, layout="mono")
     p["fields"] = P_FIELDS[:2]
@@ -353,6 +393,8 @@ def run(ctx, rep, model=True):
 
 def replay(ctx, rep, obj, model=True):
     c = obj["case"]
+    if "same_directory_other_limit" in c:
+        same_directory_other_limit(ctx, rep); return
     run_case(ctx, rep, c["p"], c["q"], c["vars1"], c["vars2"], model, tuple(c.get("kinds", ("?", "?"))),
              expect_refusal=c.get("expect_refusal"), finish=c.get("finish"), cli=c.get("cli", False), relout=c.get("relout", False),
              fdlimit=c.get("fdlimit"))
